@@ -94,7 +94,7 @@ Eat(st, b) ==
 (* The uploading client writes b: no byte of it is protected by the announced table.          *)
 ClientWrite(b) ==
     /\ phase = "write"
-    /\ \A i \in 1..Len(b) : b[i] \notin Protected(table)
+    /\ LET P == Protected(table) IN \A i \in 1..Len(b) : b[i] \notin P
     /\ LET st == Eat([line |-> line, need |-> need, acc |-> acc, fidx |-> fidx, nframes |-> nframes, ok |-> TRUE], b) IN
        /\ st.ok
        /\ line' = st.line /\ need' = st.need /\ acc' = st.acc /\ fidx' = st.fidx /\ nframes' = st.nframes
